@@ -12,6 +12,7 @@
    classes, over the ISO database t.  [iso_table] is GENERATED from
    iso_4217.xml on every run (Gen/IsoTable.v). *)
 From Coq Require Import ZArith QArith Qabs List Bool.
+From QV Require Import Gen.FractionImpl Proofs.GenFractionEq.
 From QV Require Import Model.Num Model.Rounding Model.Quantity Model.MoneyOps Gen.IsoTable
      Proofs.RoundingQ Proofs.QuantityProofs Proofs.C13Proofs Proofs.C01Proofs
      Proofs.C03C04Proofs Proofs.C05Proofs Proofs.C08Proofs.
@@ -224,6 +225,17 @@ Theorem C08_new_currency_valid : forall st sym name mu sf c st',
      0 < c_sf c /\ exists k, (1 <= k)%Z /\ c_sf c * inject_Z k == 1).
 Proof. exact new_currency_valid. Qed.
 Print Assumptions C08_new_currency_valid.
+
+(* THE MODEL IS THE CODE: the validation part of MoneyMeta.new_unit (which smallest
+   fraction a currency gets from minor_unit / smallest_fraction, and which
+   combinations are rejected with which exception) is re-translated from
+   src/quantity/money/__init__.py on every run (Gen/FractionImpl.v, fail-closed
+   symbolic execution per kind of argument, translate/fraction.py) and is equal, on
+   all inputs, to the model function the theorems above are about *)
+Theorem C08_fraction_rule_is_translated_code : forall mu sf,
+  resolve_fraction_impl mu sf = resolve_fraction mu sf.
+Proof. exact resolve_fraction_impl_eq. Qed.
+Print Assumptions C08_fraction_rule_is_translated_code.
 
 (* ---------------- non-vacuity -------------------------------------------- *)
 
